@@ -160,6 +160,23 @@ func c06Notify(c *core.Ctx) {
 		f := w.From(start, nil)
 		c.Decide(f == nil && len(finalEdges) > 0, rule, fmt.Sprintf("detectReorgInTrackedList#equal-edge-removes-only-finalized-%d", k+1), e.If.Pos(), "an unchanged tracked block is dropped only when it is at or below the finalized block")
 	}
+	// (g) a tracked block is dropped only after its hash was compared with the chain's; (h) on the mismatch edge only
+	// after the subscriber was notified (and acknowledged)
+	isRemoval := func(i ssa.Instruction) bool {
+		return core.IsCallTo(i, "(*reorgdetector.headersList).removeRange", "(*reorgdetector.ReorgDetector).removeTrackedBlockRange")
+	}
+	both := append(append([]core.IfEdge{}, eq...), neq...)
+	f = core.ReachableWithout(core.Entry(fn), both, isRemoval)
+	if f != nil {
+		c.Violate(rule, "detectReorgInTrackedList#removal-after-comparison", f.Instr.Pos(), "a tracked block is dropped on a path that never compared its hash with the current chain: a reorg of that block goes undetected ("+core.PathStr(f)+")")
+	} else {
+		c.Hold(rule, "detectReorgInTrackedList#removal-after-comparison", "tracked blocks are dropped only after the hash comparison")
+	}
+	for k, e := range neq {
+		start := core.Point{B: e.B.Succs[e.Succ], I: 0}
+		f := (&core.Walk{Stop: func(i ssa.Instruction) bool { return i == cs.Instr }, Target: isRemoval}).From(start, nil)
+		c.Decide(f == nil, rule, fmt.Sprintf("detectReorgInTrackedList#notify-before-untrack-%d", k+1), e.If.Pos(), "on a mismatch the tracked range is dropped only after the subscriber was notified and acknowledged (a crash in between keeps the reorg detectable)")
+	}
 	// (f) getSorted is ascending by Num
 	gs := c.MustFn(rule, "reorgdetector", "headersList", "getSorted")
 	if gs != nil {
@@ -184,6 +201,55 @@ func c06Notify(c *core.Ctx) {
 		}
 		usesSort := len(core.CallsTo(gs, "sort.Slice", "sort.SliceStable")) > 0
 		c.Decide(okSort && usesSort, rule, "reorgdetector.(*headersList).getSorted#ascending", gs.Pos(), "tracked blocks are examined in ascending block order (less = a[i].Num < a[j].Num)")
+	}
+}
+
+// c06Tracked: who may replace a subscriber's tracked list.
+func c06Tracked(c *core.Ctx) {
+	const rule = "C06-tracked"
+	sx := core.NewSymx()
+	n := 0
+	for _, fn := range c.AllFuncs() {
+		if fn.Pkg == nil || fn.Pkg.Pkg.Path() != core.P("reorgdetector") {
+			continue
+		}
+		core.Instrs(fn, func(i ssa.Instruction) {
+			switch x := i.(type) {
+			case *ssa.MapUpdate:
+				if !strings.HasSuffix(sx.Of(x.Map).String(), "rd.trackedBlocks") {
+					return
+				}
+				n++
+				construct := "trackedBlocks[id]=@" + core.ShortFn(fn)
+				// allowed only where no list exists yet (comma-ok lookup false) or the existing one is empty
+				absent := core.TermEdges(fn, sx, func(s string, _ *core.Term) bool {
+					return (strings.HasSuffix(s, "rd.subscriptions["+sx.Of(x.Key).String()+"]#1") || strings.HasSuffix(s, "rd.trackedBlocks["+sx.Of(x.Key).String()+"]#1"))
+				}, false)
+				absent = append(absent, core.TermEdges(fn, sx, func(s string, _ *core.Term) bool {
+					return strings.HasPrefix(s, "(*reorgdetector.headersList).isEmpty(")
+				}, true)...)
+				f := core.ReachableWithout(core.Entry(fn), absent, func(y ssa.Instruction) bool { return y == i })
+				if f != nil || len(absent) == 0 {
+					c.Violate(rule, construct, i.Pos(), "a subscriber's tracked list is replaced although one may already exist (e.g. loaded from the database at start): the blocks processed before a restart are no longer checked for reorgs")
+				} else {
+					c.Hold(rule, construct, "a new list is installed only when the subscriber had none (or an empty one)")
+				}
+			case *ssa.Store:
+				fa, ok := x.Addr.(*ssa.FieldAddr)
+				if !ok || !strings.HasSuffix(sx.Of(fa).String(), ".trackedBlocks") {
+					return
+				}
+				if _, isAlloc := fa.X.(*ssa.Alloc); isAlloc {
+					return // constructor
+				}
+				n++
+				v := sx.Of(x.Val).String()
+				c.Decide(strings.HasPrefix(v, "(*reorgdetector.ReorgDetector).getTrackedBlocks("), rule, "trackedBlocks=@"+core.ShortFn(fn), i.Pos(), "the whole map is replaced only by what is stored in the database: "+v)
+			}
+		})
+	}
+	if n == 0 {
+		c.Undecide(rule, "trackedBlocks-writers", 0, "no writer of ReorgDetector.trackedBlocks found")
 	}
 }
 
@@ -259,7 +325,8 @@ func init() {
 		Explanation: "Decides the structural necessary conditions of reorg detection and rewind on every path: C06-track — the driver hands a block to the store only after the reorg detector accepted it for tracking (or it is finalized), tracking (id, b.Num, b.Hash) of the delivered block; C06-notify — the only send on Subscription.ReorgedBlock is notifySubscriber's, called from one site, only on the edge where the tracked hash differs from the current header's hash for the same number, with the current element of an ascending getSorted() range, leaving the loop after the first notification, and on the equal edge only finalized entries are dropped; C06-rewind/C06-value — handleReorg cancels the download before Reorg, passes the notified value unchanged, retries until Reorg returns nil, only then acknowledges, never returns without acknowledging, and Sync re-reads the last processed block and restarts the download afterwards (C05-restart). Convergence for all fork shapes, restart points and detector/driver interleavings is not decided.",
 		Rules: []Rule{
 			{ID: "C06-track", Floor: 2, Run: c06Track, Text: "[DOM]+flag threading: ProcessBlock only after AddBlockToTrack()==nil or IsFinalizedBlock"},
-			{ID: "C06-notify", Floor: 6, Run: c06Notify, Text: "[WHO]+[DOM]+[PROV] single notifier, only on hash mismatch, first mismatching block in ascending order"},
+			{ID: "C06-tracked", Floor: 3, Run: c06Tracked, Text: "[WHO]+[DOM] a subscriber's tracked list is replaced only when absent/empty or from the database"},
+			{ID: "C06-notify", Floor: 8, Run: c06Notify, Text: "[WHO]+[DOM]+[PROV] single notifier, only on hash mismatch, first mismatching block in ascending order"},
 			{ID: "C06-rewind", Floor: 5, Run: c06Rewind, Text: "[DOM] cancel before Reorg; ack only after Reorg()==nil; no return without ack; detector waits for ack"},
 			{ID: "C06-reset", Floor: 2, Run: func(c *core.Ctx) { c05Restart(c) }, Text: "[PROV]+[DOM] (shared with C05-restart) Sync re-reads the last processed block after every reorg; reorg value passed unchanged"},
 		},
